@@ -133,7 +133,9 @@ func callGFunction(L *LState, tailcall bool, nested bool) bool {
 		wantret = gfnret
 	}
 
-	if tailcall && L.Parent != nil && L.stack.Sp() == 1 {
+	// the bottom frame of a coroutine returns: by a tail call to a Go function, or because the
+	// coroutine's body itself is a Go function (then the thread's own loop, not a nested one, runs it)
+	if (tailcall || !nested) && L.Parent != nil && L.stack.Sp() == 1 {
 		switchToParentThread(L, wantret, false, true)
 		return true
 	}
